@@ -26,8 +26,10 @@ Inductive hcond :=
 | CIn (kw : list bytes)           (* in(splitValues(value), kw) *)
 | CInSpace (kw : list bytes)      (* in(strings.Split(value, " "), kw) *)
 | CExact (kw : list bytes)        (* in([]string{value}, kw) *)
-| CRec (sep : N) (maxlen : option nat) (fns : list string).
+| CRec (sep : N) (maxlen : option nat) (fns : list string)
                                   (* [if len(splitVals) > maxlen { return false }] recursiveCheck(strings.Split(value, sep), fns) *)
+| CInSep (sep : N) (kw : list bytes).
+                                  (* in(strings.Split(value, sep), kw) for a one-byte separator other than the blank *)
 
 Definition henv := list (string * (bytes -> bool)).
 Definition call_env (env : henv) (fn : string) (v : bytes) : bool :=
@@ -43,6 +45,7 @@ Definition eval_cond (acceptors : list (string * re)) (env : henv) (c : hcond) (
     let parts := split v [sep] in
     (match mx with Some k => Nat.leb (List.length parts) k | None => true end) &&
     recursive_check parts (map (call_env env) fns)
+  | CInSep sep kw => in_list (split v [sep]) kw
   end.
 Definition eval_def (acceptors : list (string * re)) (env : henv) (d : list hcond) (v : bytes) : bool :=
   existsb (fun c => eval_cond acceptors env c v) d.
@@ -70,7 +73,7 @@ Definition cond_clean (rxclean clset : list string) (c : hcond) : bool :=
   match c with
   | CRx nm => existsb (String.eqb nm) rxclean
   | CCall fn => existsb (String.eqb fn) clset
-  | CIn _ | CInSpace _ | CExact _ => true
+  | CIn _ | CInSpace _ | CExact _ | CInSep _ _ => true
   | CRec _ _ fns => forallb (fun fn => existsb (String.eqb fn) clset) fns
   end.
 Definition cond_admissible (kept clset : list string) (c : hcond) : bool :=
